@@ -98,8 +98,9 @@ Definition act_of (l : list (nat * nat)) (c : nat) : nat := match alookup c l wi
 
 Fixpoint has_l (h : nat) (l : list (nat * nat)) : bool :=
   match l with [] => false | (x, _) :: t => Nat.eqb h x || has_l h t end.
+(* ids are handed out once, so at most one entry goes *)
 Fixpoint del_l (h : nat) (l : list (nat * nat)) : list (nat * nat) :=
-  match l with [] => [] | (x, c) :: t => if Nat.eqb h x then t else (x, c) :: del_l h t end.
+  match l with [] => [] | (x, c) :: t => if Nat.eqb h x then del_l h t else (x, c) :: del_l h t end.
 
 Definition set_flt st fl nh fr := mkF fl (lsts st) nh fr (hregs st) (pend st) (acts st) (nextd st).
 Definition set_lsts st ls nh hr := mkF (flt st) ls nh (fregs st) hr (pend st) (acts st) (nextd st).
